@@ -51,7 +51,7 @@ class RegionInterp:
         flags = flags or {}
         for st in body:
             if isinstance(st, ast.If):
-                if not _mentions(st.test, self.var):
+                if norm(st.test) in flags or not _mentions(st.test, self.var):
                     t = norm(st.test)
                     if t in flags:
                         branch = st.body if flags[t] else st.orelse
